@@ -98,7 +98,7 @@ var params = func() refchain.Params {
 	return p
 }()
 
-const prefixLen = 110
+const prefixLen = 112
 
 func o1(v uint64) reftx.Out { return reftx.Out{Value: v, Script: []byte{0x51}} }
 
@@ -122,6 +122,22 @@ func buildPrefix() *chainx.Prefix {
 			s.Txs = append(s.Txs, y)
 			p.Named["Y0"] = OP{Tx: y.TxID()}
 			p.Named["Y1"] = OP{Tx: y.TxID(), Vout: 1}
+		case h == 111:
+			// 70 one-output transactions with distinct txids (the UTXO commit deletes spent records in batches of 32)
+			var fo []reftx.Out
+			for i := 0; i < 70; i++ {
+				fo = append(fo, o1(7e7))
+			}
+			f := minichain.Spend([]OP{p.Cb[10]}, fo)
+			s.Txs = append(s.Txs, f)
+			s.Fees = 50e8 - 70*7e7
+			p.Named["FAN"] = OP{Tx: f.TxID()}
+		case h == 112:
+			for i := 0; i < 70; i++ {
+				t := minichain.Spend([]OP{{Tx: p.Named["FAN"].Tx, Vout: uint32(i)}}, []reftx.Out{o1(7e7)})
+				s.Txs = append(s.Txs, t)
+				p.Named[fmt.Sprint("T", i)] = OP{Tx: t.TxID()}
+			}
 		case h >= 105 && h <= 110:
 			// R<h>: coins of known recent confirmation height (BIP68 variants)
 			r := minichain.Spend([]OP{p.Cb[h-102]}, []reftx.Out{o1(25e8), o1(25e8)})
@@ -411,6 +427,24 @@ func variants() []variant {
 	}})
 	add(variant{name: "two-pool-verified-txs-then-witness-missing", rule: "script verifies", build: func(c *ctx) *reftx.Block {
 		return blk(c, 83, 0, 0, vouched(sp(ops(c.coin("M2")), outs(o1(10e8)))), vouched(sp(ops(c.coin("M4")), outs(o1(5e8)))), sp(ops(c.coin("W0")), outs(o1(5e8))))
+	}})
+	// one transaction spending from k distinct confirmed transactions, k around the commit's batch size
+	for _, k := range []int{31, 32, 33, 34, 64, 65, 66} {
+		k := k
+		add(variant{name: fmt.Sprintf("spend-%d-distinct-confirmed-transactions", k), build: func(c *ctx) *reftx.Block {
+			var in []OP
+			for i := 0; i < k; i++ {
+				in = append(in, c.coin(fmt.Sprint("T", i)))
+			}
+			return blk(c, byte(90+k%10), 0, 0, sp(in, outs(o1(uint64(k)*7e7))))
+		}})
+	}
+	add(variant{name: "respend-output-of-a-33-input-sweep", rule: "no double spend", build: func(c *ctx) *reftx.Block {
+		// only meaningful after the sweep above; in other states T5 is unspent and the variant is skipped
+		if !c.spent["T5"] {
+			c.missing = true
+		}
+		return blk(c, 99, 0, 0, sp(ops(c.raw("T5")), outs(o1(7e7))))
 	}})
 	// BIP68 (tx version 2 by minichain.Spend)
 	bip68 := func(name string, seq uint32, ok bool) {
